@@ -84,5 +84,6 @@ UNITS = [
              ("nodey", "is_nodes(self.data) && nodey(f) ==> is_nodes(r.data)"),
              ("value", "!is_nodes(self.data) ==> r.data is Nothing"),
              ("single", "self.data matches Data::Ref(p) ==> f.ensures((p,), r.data)"),
+             ("nothing", "self.data is Nothing ==> r.data is Nothing"),
          ]),
 ]
